@@ -284,10 +284,27 @@ func init() {
 		lastPos := map[string][2]int{}
 		n := 6 + gen.Uniform(t, "nops", 25)
 		uris := gen.Pick(t, "uriset", lspURISets)
+		// long one-sided histories (2 %): hundreds of notifications about one document while
+		// another one is left alone, then questions about the quiet one (nothing may be
+		// forgotten however long ago it was sent)
+		long := gen.Chance(t, "long", 2)
+		busy := uris[0]
+		if long {
+			n = 130 + gen.Uniform(t, "long.n", 150)
+			busy = gen.Pick(t, "long.busy", uris)
+		}
 		for i := 0; i < n; i++ {
 			uri := gen.Pick(t, "uri", uris)
+			if long && i < 2 {
+				uri = uris[i%len(uris)]
+			} else if long && i < n-6 {
+				uri = busy
+			}
 			_, isOpen := open[uri]
 			kind := gen.Pick(t, "kind", []string{"open", "change", "change", "hover", "hover", "definition", "symbols"})
+			if long && i >= 2 && i < n-6 && gen.Chance(t, "long.change", 90) {
+				kind = "change"
+			}
 			if !isOpen {
 				kind = "open"
 			}
